@@ -164,8 +164,8 @@ def main(chk):
     flat = {}
     for path, v in items:
       p = tuple(path)
-      if int_keys:
-        p = tuple({'x': 0, 'y': 1}.get(k, k) for k in p)
+      if int_keys:      # 1: list-like int keys; 2: dict keys that are digit strings
+        p = tuple(({'x': 0, 'y': 1} if int_keys == 1 else {'x': '0', 'y': '1'}).get(k, k) for k in p)
       typ = nnx.Param if v == 1 else Q
       flat[p] = nnx.VariableState(typ, jnp.asarray(v * 10 + len(p), jnp.int32))
     return nnx.State.from_flat_path(flat)
@@ -173,7 +173,7 @@ def main(chk):
   def proj(state, int_keys=False):
     out = {}
     for p, leaf in nnx.to_flat_state(state):
-      p = tuple({0: 'x', 1: 'y'}.get(k, k) for k in p) if int_keys else tuple(p)
+      p = tuple({0: 'x', 1: 'y', '0': 'x', '1': 'y'}.get(k, k) for k in p) if int_keys else tuple(p)
       out[p] = (leaf.type.__name__, int(np.asarray(leaf.value)))
     return out
 
@@ -181,7 +181,7 @@ def main(chk):
     return {tuple(p): ('Param' if v == 1 else 'Q', v * 10 + len(p)) for p, v in items}
   m = 0
   for idx, case in enumerate(st['exports']):
-    ik = idx % 2 == 1
+    ik = idx % 3      # rendering of the keys x / y: as they are, as ints 0 / 1, as digit strings '0' / '1'
     a, b = mk(case['a'], ik), mk(case['b'], ik)
     sig = 'a=' + ','.join('/'.join(p) + f':{v}' for p, v in sorted(case['a'])) + ';b=' + ','.join('/'.join(p) + f':{v}' for p, v in sorted(case['b']))
     ops = {
